@@ -37,6 +37,10 @@ pub fn run<A: Cx>(d: &mut Drv<A>, scale: usize, all: bool) {
             for &wd in &ws {
                 d.emit(json!({"op": "itrun", "kind": "windows", "x": x.clone(), "y": whole(1), "w": wd}));
                 d.emit(json!({"op": "itrun", "kind": "chunks", "x": x.clone(), "y": whole(1), "w": wd}));
+                if d.rng.chance(1, 3) {
+                    let k = *d.rng.pick(&["windowsvec", "chunksvec"]);
+                    d.emit(json!({"op": "itrun", "kind": k, "x": x.clone(), "y": whole(1), "w": wd}));
+                }
             }
             // the iterator state machine, step by step, two iterators interleaved with an edit
             if n <= 70 {
